@@ -168,11 +168,20 @@ impl<NonceSize: Unsigned, Rounds, IsX> ChaChaAny<NonceSize, Rounds, IsX> {
     }
 }
 
-impl<NonceSize, Rounds: Unsigned, IsX> ChaChaAny<NonceSize, Rounds, IsX> {
+impl<NonceSize: Unsigned, Rounds: Unsigned, IsX> ChaChaAny<NonceSize, Rounds, IsX> {
     #[inline]
     fn try_apply_keystream(&mut self, data: &mut [u8]) -> Result<(), ()> {
-        self.state
-            .try_apply_keystream::<WideEnabled>(data, Rounds::U32)
+        // The block counter is incremented as a 64-bit value; with a 32-bit counter the upper word
+        // is the first nonce word and must survive the increment past the last block.
+        let nonce_word = self.state.state.get_stream_param(0) >> 32;
+        let result = self
+            .state
+            .try_apply_keystream::<WideEnabled>(data, Rounds::U32);
+        if NonceSize::U32 == 12 {
+            let ctr = self.state.state.get_stream_param(0) & 0xffff_ffff;
+            self.state.state.set_stream_param(0, (nonce_word << 32) | ctr);
+        }
+        result
     }
 }
 
@@ -236,7 +245,7 @@ impl<NonceSize: Unsigned, Rounds, IsX> StreamCipherSeek for ChaChaAny<NonceSize,
     }
 }
 
-impl<NonceSize, Rounds: Unsigned, IsX> StreamCipher for ChaChaAny<NonceSize, Rounds, IsX> {
+impl<NonceSize: Unsigned, Rounds: Unsigned, IsX> StreamCipher for ChaChaAny<NonceSize, Rounds, IsX> {
     #[inline]
     fn try_apply_keystream(&mut self, data: &mut [u8]) -> Result<(), LoopError> {
         Self::try_apply_keystream(self, data).map_err(|_| LoopError)
